@@ -5,3 +5,6 @@ import Props.C10
 #print axioms T4Spec.orient_edges
 #print axioms T4Spec.orient_cells
 #print axioms T4Spec.decreasing_iff
+#print axioms T4Spec.convert_energy_axis
+#print axioms T4Spec.convert_single
+#print axioms T4Spec.fillRows_single
